@@ -1,5 +1,6 @@
 import SlocModel.Check
 import SlocModel.Props.C11
+import SlocModel.Props.C06
 /-!
   C01 — check is a sound and complete gate: exit code and statuses follow the rules.
 
@@ -201,6 +202,48 @@ theorem check_sound_dirs (c : Config) (files : List FileIn) (dirs : List DirIn) 
       exact List.mem_flatMap.2 ⟨d, hd, List.mem_map.2 ⟨x, hx, rfl⟩⟩, by simp [findingRes, hs], by
       simpa [findingRes] using hcov⟩⟩
     omega
+
+/-- soundness for directories in terms of the counts themselves (composing C06's
+    `count_failed_iff`): with exit 0 a directory whose resolved file limit is `L` (not −1) holds at
+    most `L` files, and likewise for sub-directories, unless it is grandfathered -/
+theorem check_sound_dir_counts (c : Config) (files : List FileIn) (dirs : List DirIn) (pl sb : List Res)
+    (disk : Option Base) (fl : Flags) (rs : List Res) (d' : Option Base) (st : List Baseline.Key)
+    (h : checkRun c files dirs pl sb disk fl = .done rs d' 0 st) (hw : fl.warnOnly = false)
+    (hon : c.structureOn = true) (d : DirIn) (hd : d ∈ dirs) :
+    covered (loadedOf disk fl) d.key = true ∨
+    ((∀ L, (Structure.resolveLimits c.sglobal (c.srules.zip d.scopeMatches)).fields.maxFiles = some L →
+        L ≠ Generated.unlimited → d.stats.files ≤ Structure.asUsize L) ∧
+     (∀ L, (Structure.resolveLimits c.sglobal (c.srules.zip d.scopeMatches)).fields.maxDirs = some L →
+        L ≠ Generated.unlimited → d.stats.dirs ≤ Structure.asUsize L)) := by
+  cases hcov : covered (loadedOf disk fl) d.key with
+  | true => exact Or.inl rfl
+  | false =>
+    right
+    constructor
+    · intro L hL hne
+      by_cases hle : d.stats.files ≤ Structure.asUsize L
+      · exact hle
+      · exfalso
+        obtain ⟨f, hf, hs⟩ := (Props.C06.count_failed_iff .files d.stats.files L
+          (Structure.resolveLimits c.sglobal (c.srules.zip d.scopeMatches)).fields.warnFilesAt
+          (Structure.resolveLimits c.sglobal (c.srules.zip d.scopeMatches)).fields.warnFilesThreshold
+          (Structure.resolveLimits c.sglobal (c.srules.zip d.scopeMatches)).fields.warnThreshold hne).2 (by omega)
+        have := check_sound_dirs c files dirs pl sb disk fl rs d' st h hw hon d hd f
+          (by simp only [Structure.checkDir, hL, List.mem_append, Option.mem_toList]
+              exact Or.inl (Or.inl (by simpa using hf))) hs
+        rw [hcov] at this; cases this
+    · intro L hL hne
+      by_cases hle : d.stats.dirs ≤ Structure.asUsize L
+      · exact hle
+      · exfalso
+        obtain ⟨f, hf, hs⟩ := (Props.C06.count_failed_iff .dirs d.stats.dirs L
+          (Structure.resolveLimits c.sglobal (c.srules.zip d.scopeMatches)).fields.warnDirsAt
+          (Structure.resolveLimits c.sglobal (c.srules.zip d.scopeMatches)).fields.warnDirsThreshold
+          (Structure.resolveLimits c.sglobal (c.srules.zip d.scopeMatches)).fields.warnThreshold hne).2 (by omega)
+        have := check_sound_dirs c files dirs pl sb disk fl rs d' st h hw hon d hd f
+          (by simp only [Structure.checkDir, hL, List.mem_append, Option.mem_toList]
+              exact Or.inl (Or.inr (by simpa using hf))) hs
+        rw [hcov] at this; cases this
 
 /-- placement and sibling findings (C07) fail the run like any other failed result -/
 theorem check_sound_placement (c : Config) (files : List FileIn) (dirs : List DirIn) (pl sb : List Res)
